@@ -1,4 +1,4 @@
-// Polynomial kinds (C11, C12): poly.ring, poly.calc, poly.access, poly.ctor, poly.hist, poly.div, poly.divself.
+// Polynomial kinds (C11, C12): poly.ring, poly.calc, poly.access, poly.ctor, poly.hist, poly.div, poly.divself, poly.divpair.
 // Only the public API of ohsl::Polynomial is used (new/empty/quadratic/cubic, size, degree, index,
 // eval, is_zero, trim, derivative*, the operator impls, polydiv).  The printed streams are mirrored
 // by run_ring / run_calc / run_access / run_ctor / run_div of coq/Model/Poly.v.
@@ -135,18 +135,6 @@ pub fn run<T: Elt>(kind: &str, a: &mut Args, out: &mut Out) {
             let r = u.polydiv(&v);
             check_same(&u, &su, "polydiv"); check_same(&v, &sv, "polydiv");
             div_out(r, out);
-            // dividend and divisor the SAME object: a shortcut keyed on pointer equality must agree with the general
-            // routine (in particular x.polydiv(&x) of the empty / all-zero polynomial is still the zero-divisor error)
-            for (w, nm) in [(&u, "u"), (&v, "v")] {
-                // (a non-zero polynomial with a vanishing leading coefficient is outside the claim as a divisor)
-                let n = w.size();
-                if n > 0 && w[n - 1] == T::zero() && (0..n).any(|i| w[i] != T::zero()) { continue; }
-                let (mut o1, mut o2) = (Out::new(), Out::new());
-                guarded(&mut o1, |o| div_out(w.polydiv(w), o));              // (a panic of the library is part of the outcome)
-                guarded(&mut o2, |o| div_out(w.polydiv(&w.clone()), o));
-                if o1.toks != o2.toks { panic!("harness: same-object and cloned-operand forms differ ({}.polydiv(&{}), dividend and divisor the same object)", nm, nm); }
-            }
-            check_same(&u, &su, "polydiv (same object)"); check_same(&v, &sv, "polydiv (same object)");
         }
         // poly.divself <u>: u.polydiv(&u), dividend and divisor the SAME object; the stream of poly.div (model: run_div u u)
         "poly.divself" => {
@@ -155,6 +143,16 @@ pub fn run<T: Elt>(kind: &str, a: &mut Args, out: &mut Out) {
             let r = u.polydiv(&u);
             check_same(&u, &su, "polydiv (same object)");
             div_out(r, out);
+        }
+        // poly.divpair <w>: the answer of w.polydiv(&w) (dividend and divisor the SAME object), then the answer of w.polydiv(&w.clone()),
+        // each in the format of poly.div and each guarded (a library panic is that answer: one P token).  Nothing is compared here: the
+        // oracle judges each answer against u = q*v + r, deg r < deg v, and demands the same outcome class of both
+        "poly.divpair" => {
+            let w = poly::<T>(a);
+            let sw = toks(&w);
+            guarded(out, |o| div_out(w.polydiv(&w), o));
+            guarded(out, |o| { let c = w.clone(); div_out(w.polydiv(&c), o) });
+            check_same(&w, &sw, "polydiv (same object)");
         }
         _ => panic!("harness: unknown kind {}", kind),
     }
